@@ -342,7 +342,8 @@ Inductive place :=
 
 Record resolved := mk_res {
   rs_src : source;             (* what the path holds, as a source *)
-  rs_home : option string;     (* Some k: filepath.Dir of the executable the source designates is <root>/k *)
+  rs_home : option string;     (* Some k: filepath.Dir of the executable the source designates, symbolic links
+                                  resolved (filepath.EvalSymlinks, ccdc027), is <root>/k *)
   rs_target : option string }. (* Some k: the source vanishes when <root>/k is removed *)
 
 Definition resolve (st : state) (p : place) : resolved :=
@@ -365,7 +366,7 @@ Definition resolve (st : state) (p : place) : resolved :=
   | PLinkFile lname k fname =>
       match afind k st with
       | Some d => match find_file fname d with
-                  | Some f => mk_res (SFile (F lname (f_mode f) (f_cid f))) None (Some k)
+                  | Some f => mk_res (SFile (F lname (f_mode f) (f_cid f))) (Some k) (Some k)
                   | None => mk_res SMissing None None
                   end
       | None => mk_res SMissing None None
@@ -450,11 +451,25 @@ Definition install_at_g (doi : resolved -> state -> string -> list file -> optio
 Definition install_at : table -> state -> place -> bool -> state * ires := install_at_g do_install_at.
 Definition install_at_v0 : table -> state -> place -> bool -> state * ires := install_at_g do_install_at_v0.
 
-(* the two forms of source on which the code (still) changes the root although it refuses:
-   a directory of the root whose only file named notation-{name} is not executable (setExecutable
-   changes it before anything is checked), and a link, named for plugin k, into the directory of k
-   (the clean-up removes the target of the link before the copy) *)
-Definition place_clean (st : state) (p : place) : bool :=
+(* between 6dc7abe and ccdc027: the directory of the source path was compared as given, so a link
+   elsewhere to <root>/k/fname passed the check *)
+Definition resolve_v1 (st : state) (p : place) : resolved :=
+  match p with
+  | PLinkFile _ _ _ => let rs := resolve st p in mk_res (rs_src rs) None (rs_target rs)
+  | _ => resolve st p
+  end.
+
+Definition install_at_v1 (tbl : table) (st : state) (p : place) (ow : bool) : state * ires :=
+  let rs := resolve_v1 st p in
+  let loc := locate (rs_src rs) in
+  install_with_g (do_install_at rs) loc tbl (after_parse st p loc) ow.
+
+(* "the source is not an installed plugin directory holding a non-executable candidate": for a
+   directory source whose only file named notation-{name} is not executable Install sets the
+   user-executable bit and tries to install it (documented behaviour of a directory source, logged as
+   a warning); when that directory is a directory of the plugin root the root itself is changed by
+   this, before anything is checked *)
+Definition not_installed_dir_with_nonexec_candidate (st : state) (p : place) : bool :=
   match p with
   | PInDir k =>
       match afind k st with
@@ -464,7 +479,6 @@ Definition place_clean (st : state) (p : place) : bool :=
                   end
       | None => true
       end
-  | PLinkFile lname k _ => negb (same_name (pname_of lname) k)
   | _ => true
   end.
 
@@ -875,13 +889,13 @@ Definition opat_ok (o : opat) : bool :=
   match o with AInstall (POut s) _ => source_ok s | _ => true end.
 
 (* along the history as the model runs it: what every place holds is a well-formed source, and
-   no step uses one of the two forms of [place_clean] *)
+   no directory source is an installed plugin directory holding a non-executable candidate *)
 Fixpoint at_ok (tbl : table) (st : state) (ops : list opat) : bool :=
   match ops with
   | [] => true
   | o :: r =>
       match o with
-      | AInstall p _ => source_ok (rs_src (resolve st p)) && place_clean st p
+      | AInstall p _ => source_ok (rs_src (resolve st p)) && not_installed_dir_with_nonexec_candidate st p
       | AUninstall _ => true
       end && at_ok tbl (fst (mstep_at tbl st o)) r
   end.
